@@ -14,6 +14,7 @@ def _sockview(st, sock):
 class ReceiveData(Contract):
     name = "Pyro5.socketutil.receive_data"
     props = ("C17",)
+    local_positions = {"msglen": 1, "data": 2}        # first-assignment order of the locals the invariants talk about (rename-tolerant lookup)
     raises = {"Pyro5.errors.TimeoutError": "x_timeout", "Pyro5.errors.ConnectionClosedError": "x_closed"}
 
     def setup(self, E, st):
@@ -66,10 +67,10 @@ class ReceiveData(Contract):
             # call-site view: partialData may or may not be present; model it as present iff not fatal
             pass
 
-    def _inv_accum(self, old, st, a):
+    def _inv_accum(self, E, old, st, a):
         stream, pos0, _ = _sockview(old, a["sock"])
         pos = st.get(a["sock"], "pos").e
-        data, msglen = st.env["data"].e, st.env["msglen"].e
+        data, msglen = E.local(st, "data").e, E.local(st, "msglen").e
         return [("data==stream[pos0:pos]", data == z3.SubSeq(stream, pos0, pos - pos0)),
                 ("msglen==len(data)", msglen == z3.Length(data)),
                 ("msglen<=size", msglen <= a["size"].e),
@@ -80,11 +81,11 @@ class ReceiveData(Contract):
     def loop_inv(self, k, E, old, st, a):
         if k == 0:
             stream, pos0, _ = _sockview(old, a["sock"])
-            return [("nothing-read", z3.And(st.env["msglen"].e == 0, z3.Length(st.env["data"].e) == 0,
+            return [("nothing-read", z3.And(E.local(st, "msglen").e == 0, z3.Length(E.local(st, "data").e) == 0,
                                             st.get(a["sock"], "pos").e == pos0)),
                     ("no-fatal-yet", z3.Not(st.get(a["sock"], "fatal").e)),
                     ("out-untouched", st.get(a["sock"], "out").e == old.get(a["sock"], "out").e)]
-        return self._inv_accum(old, st, a)
+        return self._inv_accum(E, old, st, a)
 
     def loop_modifies(self, k, E, st, a):
         s = a["sock"]
